@@ -112,7 +112,7 @@ theorem not_rolling_of_init (ro : RolloutSM.Rollout) (h : initializing ro = true
     TrafficRouting now -/
 theorem rolling_after (i : Nat) (w : RolloutSM.World) (tr : Option TRO) (f : TFault) (r : RolloutSM.StepResult) (tr' : Option TRO)
     (h : roReconcile i true w tr f = .val r tr') (hr : rolling r.w.ro = true) :
-    (rolling w.ro = true ∧ tr' = tr) ∨ i ∈ holdersOf tr' := by
+    (rolling w.ro = true ∧ tr' = tr) ∨ (i ∈ holdersOf tr ∧ tr' = tr) := by
   cases ro_cases i true w tr f r tr' h with
   | pass h0 ht hc =>
     rcases rolling_origin w r h0 hr with h1 | ⟨h1, h2⟩
@@ -126,8 +126,7 @@ theorem rolling_after (i : Nat) (w : RolloutSM.World) (tr : Option TRO) (f : TFa
     rw [hh] at h1
     obtain ⟨h1a, h1b⟩ := h1 rfl
     dsimp only at h1a
-    subst h1a
-    exact Or.inr h1b
+    exact Or.inr ⟨h1b, h1a⟩
   | initWait _ _ r0 _ _ _ he =>
     subst he
     simp [rolling] at hr
@@ -148,12 +147,13 @@ theorem rolling_after (i : Nat) (w : RolloutSM.World) (tr : Option TRO) (f : TFa
     · rw [hp] at h1; cases h1
 
 /-- **2. `rollout_waits_for_binding` (C03)** — for every joint state, every rollout `i`, every fault: a bound Rollout
-    leaves Initializing for InRolling only with its finalizer on the TrafficRouting; it adds that finalizer only to a
+    leaves Initializing for InRolling only in a reconcile that found its finalizer on the TrafficRouting (never in the
+    reconcile that writes it); it adds that finalizer only to a
     live TrafficRouting that is neither Finalizing nor Terminating (no resurrection of a clean-up in progress); and it
     touches nothing else of the TrafficRouting, in particular nobody else's finalizer. -/
 theorem rollout_waits_for_binding (s s' : JS) (i : Nat) (f : TFault) (e : Entry) (he : s.ros[i]? = some e) (hg : e.gone = false)
     (h : step s (.ro i f) = some s') :
-    ∃ e', s'.ros[i]? = some e' ∧ leavesInitHeld i e e' s'.tr = true ∧ addedOnlyWhenOpen i s.tr s'.tr = true ∧
+    ∃ e', s'.ros[i]? = some e' ∧ leavesInitHeld i e e' s.tr s'.tr = true ∧ addedOnlyWhenOpen i s.tr s'.tr = true ∧
       othersKept i s.tr s'.tr = true := by
   obtain ⟨r, tr', hr, hs'⟩ := step_ro s s' i f e he hg h
   subst hs'
@@ -168,9 +168,10 @@ theorem rollout_waits_for_binding (s s' : JS) (i : Nat) (f : TFault) (e : Entry)
     have hng' : r.roGone = false := hng
     rw [landEntry_ro e r hng'] at hroll
     rw [hb] at hr
-    rcases rolling_after i _ _ _ _ _ hr hroll with ⟨h1, _⟩ | h1
+    rcases rolling_after i _ _ _ _ _ hr hroll with ⟨h1, _⟩ | ⟨h1, h2⟩
     · rw [roWorld_ro, not_rolling_of_init _ hinit] at h1; cases h1
-    · simp [h1]
+    · dsimp only
+      rw [h2]; simp [h1]
 
 /-- **3. `finalise_waits_for_restore_partial` (C05 / C10)** — for every joint state: the own clean-up of a bound Rollout
     (in-progress annotation, BatchRelease, clean-up cursor, verdict) moves only in a reconcile after which its finalizer
@@ -489,9 +490,9 @@ theorem bwr_step (s : JS) (l : Label) (s' : JS) (hinv : BoundWhileRolling s) (h 
           rw [landEntry_ro e r hng'] at hroll
           have hb' : e.bound = true := hb
           rw [hb'] at hr
-          rcases rolling_after k _ _ _ _ _ hr hroll with ⟨h1, h2⟩ | h1
+          rcases rolling_after k _ _ _ _ _ hr hroll with ⟨h1, h2⟩ | ⟨h1, h2⟩
           · rw [h2]; exact hinv k e he hb' hg h1
-          · exact h1
+          · rw [h2]; exact h1
         · rw [get_set_ne _ _ _ _ (fun h => hkj h.symm)] at hek
           exact othersKept_mem j k _ _ a2 hkj (hinv k ek hek hb hng hroll)
   | tr =>
